@@ -1,6 +1,8 @@
 CONSTANTS Threads <- T3
           Programs <- ProgRewait
           NotifyUnderLock = FALSE
+          Delegates <- NoD
+          CursorBeforeWake = FALSE
           SpuriousWakeups = FALSE
 SPECIFICATION FairSpec
 INVARIANTS NoTouchAfterDestroy LockInv NoSpuriousReturn QueueInv QueueWellFormed PerProducerOrder
